@@ -37,7 +37,7 @@ ASSUMPTIONS = [
 ]
 BUDGET = {
     "quick": dict(cases=300, shards=4, timeout=900),
-    "thorough": dict(cases=1000, shards=16, timeout=3000),
+    "thorough": dict(cases=2000, shards=16, timeout=3000),
 }
 CLASSES = [
     "basic", "staggered", "wide", "exhaustive", "peaky", "unbatched", "iters_edge",
